@@ -12,8 +12,8 @@ import (
 	"fmt"
 	"go/token"
 	"go/types"
-	"io/fs"
 	"os"
+	"os/exec"
 	"path/filepath"
 	"sort"
 	"strings"
@@ -44,6 +44,7 @@ type Result struct {
 	Signs           map[Root]bool     // root reaches a signing entry point
 	Via             map[Root][]string // one witness path (function names) for signing roots
 	Targets         map[Root][]string // names of ALL signing entry points reachable from the root (sorted)
+	TargetsNoSeal   map[Root][]string // the same when the function clique.(*Clique).Seal is removed from the graph
 	Missing         []Root            // roots for which no SSA function was found (treated as signing = conservative)
 	RegisterCallers []string          // full names of functions that contain a direct call of (*rpc.Server).RegisterName
 	Algo            string
@@ -94,7 +95,7 @@ func Analyze(repoDir string, patterns []string, roots []Root, algo string) (*Res
 	}
 	tCG := time.Since(t0)
 
-	res := &Result{Signs: map[Root]bool{}, Via: map[Root][]string{}, Targets: map[Root][]string{}, Algo: algo}
+	res := &Result{Signs: map[Root]bool{}, Via: map[Root][]string{}, Targets: map[Root][]string{}, TargetsNoSeal: map[Root][]string{}, Algo: algo}
 
 	// targets
 	targets := map[*ssa.Function]bool{}
@@ -185,6 +186,38 @@ func Analyze(repoDir string, patterns []string, roots []Root, algo string) (*Res
 		canReach[tf] = set
 	}
 
+	// the same with clique.(*Clique).Seal cut out of the graph
+	var sealNode *callgraph.Node
+	if cp := prog.ImportedPackage(Module + "/consensus/clique"); cp != nil {
+		if ct := cp.Type("Clique"); ct != nil {
+			if sf := prog.LookupMethod(types.NewPointer(ct.Type()), cp.Pkg, "Seal"); sf != nil {
+				sealNode = graph.Nodes[sf]
+			}
+		}
+	}
+	if sealNode == nil {
+		return nil, fmt.Errorf("cg: clique.(*Clique).Seal not found in the call graph (renamed?)")
+	}
+	canReachNoSeal := map[*ssa.Function]map[*callgraph.Node]bool{}
+	for tf := range targets {
+		set := map[*callgraph.Node]bool{}
+		if tn := graph.Nodes[tf]; tn != nil && tn != sealNode {
+			set[tn] = true
+			q := []*callgraph.Node{tn}
+			for len(q) > 0 {
+				n := q[0]
+				q = q[1:]
+				for _, e := range n.In {
+					if e.Caller != sealNode && !set[e.Caller] {
+						set[e.Caller] = true
+						q = append(q, e.Caller)
+					}
+				}
+			}
+		}
+		canReachNoSeal[tf] = set
+	}
+
 	// reachability per root
 	for _, r := range roots {
 		p := prog.ImportedPackage(r.PkgPath)
@@ -232,6 +265,12 @@ func Analyze(repoDir string, patterns []string, roots []Root, algo string) (*Res
 			}
 		}
 		sort.Strings(res.Targets[r])
+		for tf, set := range canReachNoSeal {
+			if set[start] {
+				res.TargetsNoSeal[r] = append(res.TargetsNoSeal[r], tf.Name())
+			}
+		}
+		sort.Strings(res.TargetsNoSeal[r])
 		if (len(res.Targets[r]) > 0) != (hit != nil) {
 			return nil, fmt.Errorf("cg: forward and backward reachability disagree on %v", r)
 		}
@@ -277,45 +316,78 @@ type cacheFile struct {
 	Signs           map[string]bool
 	Via             map[string][]string
 	Targets         map[string][]string
+	TargetsNoSeal   map[string][]string
 	RegisterCallers []string
 	Algo, Stats     string
 }
 
-// sourceHash hashes every non-test .go file, go.mod and go.sum below repoDir
-// together with the question asked (patterns, roots, algorithm).
+// sourceHash hashes the source files of exactly the packages of the main module that
+// the analysed program consists of (the dependency cone of the patterns, as `go list
+// -deps -tags verif` reports it: GoFiles and CgoFiles, which already honour build
+// constraints and exclude tests), plus go.mod and go.sum (which pin every other
+// module and the toolchain), together with the question asked.  An edit outside the
+// cone (another package, a test, a file excluded by build tags) leaves the key unchanged.
 func sourceHash(repoDir string, patterns []string, roots []Root, algo string) (string, error) {
 	h := sha256.New()
-	fmt.Fprintf(h, "cg-v4|%s|%v|%v\n", algo, patterns, roots)
-	err := filepath.WalkDir(repoDir, func(p string, d fs.DirEntry, err error) error {
-		if err != nil {
-			return err
-		}
-		if d.IsDir() {
-			if n := d.Name(); n == ".git" || n == "testdata" || n == "node_modules" {
-				return filepath.SkipDir
-			}
-			return nil
-		}
-		n := d.Name()
-		if (strings.HasSuffix(n, ".go") && !strings.HasSuffix(n, "_test.go")) || n == "go.mod" || n == "go.sum" {
-			b, err := os.ReadFile(p)
-			if err != nil {
-				return err
-			}
-			rel, _ := filepath.Rel(repoDir, p)
-			fmt.Fprintf(h, "%s %d\n", rel, len(b))
-			h.Write(b)
-		}
-		return nil
-	})
+	fmt.Fprintf(h, "cg-v6|%s|%v|%v\n", algo, patterns, roots)
+	args := append([]string{"list", "-deps", "-tags", "verif", "-f", "{{if not .Standard}}{{.ImportPath}}|{{.Dir}}|{{range .GoFiles}}{{.}},{{end}}{{range .CgoFiles}}{{.}},{{end}}{{end}}"}, patterns...)
+	cmd := exec.Command("go", args...)
+	cmd.Dir = repoDir
+	cmd.Env = append(os.Environ(), "GOFLAGS=-mod=mod", "GOPROXY=off")
+	out, err := cmd.Output()
 	if err != nil {
-		return "", err
+		return "", fmt.Errorf("go list -deps: %v", err)
+	}
+	absRepo, _ := filepath.Abs(repoDir)
+	var lines []string
+	for _, l := range strings.Split(string(out), "\n") {
+		if strings.TrimSpace(l) != "" {
+			lines = append(lines, l)
+		}
+	}
+	sort.Strings(lines)
+	nfiles := 0
+	for _, l := range lines {
+		f := strings.SplitN(l, "|", 3)
+		if len(f) != 3 {
+			continue
+		}
+		if !strings.HasPrefix(f[1], absRepo+string(filepath.Separator)) && f[1] != absRepo {
+			// a package of another module: its content is pinned by go.sum; record path only
+			fmt.Fprintf(h, "ext %s\n", f[0])
+			continue
+		}
+		files := strings.Split(strings.TrimSuffix(f[2], ","), ",")
+		sort.Strings(files)
+		for _, name := range files {
+			if name == "" {
+				continue
+			}
+			b, err := os.ReadFile(filepath.Join(f[1], name))
+			if err != nil {
+				return "", err
+			}
+			fmt.Fprintf(h, "%s/%s %d\n", f[0], name, len(b))
+			h.Write(b)
+			nfiles++
+		}
+	}
+	if nfiles == 0 {
+		return "", fmt.Errorf("go list -deps reported no source files of the main module")
+	}
+	for _, name := range []string{"go.mod", "go.sum"} {
+		b, err := os.ReadFile(filepath.Join(repoDir, name))
+		if err != nil {
+			return "", err
+		}
+		fmt.Fprintf(h, "%s %d\n", name, len(b))
+		h.Write(b)
 	}
 	return hex.EncodeToString(h.Sum(nil))[:32], nil
 }
 
-// AnalyzeCached is Analyze memoised on the content hash of the whole source
-// tree (the analysis is a deterministic function of it).  C18_CG_NOCACHE=1
+// AnalyzeCached is Analyze memoised on the content hash of the program's own
+// source files (the analysis is a deterministic function of it).  C18_CG_NOCACHE=1
 // forces a fresh analysis.
 func AnalyzeCached(repoDir string, patterns []string, roots []Root, algo string) (*Result, error) {
 	key, err := sourceHash(repoDir, patterns, roots, algo)
@@ -328,7 +400,7 @@ func AnalyzeCached(repoDir string, patterns []string, roots []Root, algo string)
 		if b, err := os.ReadFile(file); err == nil {
 			var c cacheFile
 			if json.Unmarshal(b, &c) == nil && len(c.Signs) == len(roots) {
-				res := &Result{Signs: map[Root]bool{}, Via: map[Root][]string{}, Targets: map[Root][]string{}, RegisterCallers: c.RegisterCallers, Algo: c.Algo, Stats: c.Stats + " (memoised on source hash " + key + ")"}
+				res := &Result{Signs: map[Root]bool{}, Via: map[Root][]string{}, Targets: map[Root][]string{}, TargetsNoSeal: map[Root][]string{}, RegisterCallers: c.RegisterCallers, Algo: c.Algo, Stats: c.Stats + " (memoised on source hash " + key + ")"}
 				ok := true
 				for _, r := range roots {
 					s, present := c.Signs[r.String()]
@@ -343,6 +415,9 @@ func AnalyzeCached(repoDir string, patterns []string, roots []Root, algo string)
 					if v := c.Targets[r.String()]; v != nil {
 						res.Targets[r] = v
 					}
+					if v := c.TargetsNoSeal[r.String()]; v != nil {
+						res.TargetsNoSeal[r] = v
+					}
 				}
 				if ok {
 					return res, nil
@@ -355,7 +430,7 @@ func AnalyzeCached(repoDir string, patterns []string, roots []Root, algo string)
 		return nil, err
 	}
 	if len(res.Missing) == 0 {
-		c := cacheFile{Signs: map[string]bool{}, Via: map[string][]string{}, Targets: map[string][]string{}, RegisterCallers: res.RegisterCallers, Algo: res.Algo, Stats: res.Stats}
+		c := cacheFile{Signs: map[string]bool{}, Via: map[string][]string{}, Targets: map[string][]string{}, TargetsNoSeal: map[string][]string{}, RegisterCallers: res.RegisterCallers, Algo: res.Algo, Stats: res.Stats}
 		for r, s := range res.Signs {
 			c.Signs[r.String()] = s
 		}
@@ -364,6 +439,9 @@ func AnalyzeCached(repoDir string, patterns []string, roots []Root, algo string)
 		}
 		for r, v := range res.Targets {
 			c.Targets[r.String()] = v
+		}
+		for r, v := range res.TargetsNoSeal {
+			c.TargetsNoSeal[r.String()] = v
 		}
 		if b, err := json.Marshal(c); err == nil {
 			os.MkdirAll(dir, 0o755)
